@@ -427,8 +427,12 @@ func (r *c08Runner) Step(t []string, raw string) string {
 		}
 		r.stats.Inc("slow_remeasured")
 	}
-	return fmt.Sprintf("n=%s/%d d=%s/%d nsyn=%d nother=%d nunsup=[%s] dsyn=%d dother=%d dfilt=%d dunsup=[%s] inc=[%s] slow=%d trace=%s tree=%s",
-		n.cls, n.isNil, d.cls, d.isNil, n.syn, n.other, strings.Join(n.unsup, ","), d.syn, d.other, d.filt, strings.Join(d.unsup, ","),
+	// context lifecycle: a default context that is no longer the most recently created one must behave the same
+	older := frontend.DefaultCypherContext()
+	_ = frontend.DefaultCypherContext()
+	o := c08Parse(older, text)
+	return fmt.Sprintf("n=%s/%d d=%s/%d o=%s/%d nsyn=%d nother=%d nunsup=[%s] dsyn=%d dother=%d dfilt=%d dunsup=[%s] inc=[%s] slow=%d trace=%s tree=%s",
+		n.cls, n.isNil, d.cls, d.isNil, o.cls, o.isNil, n.syn, n.other, strings.Join(n.unsup, ","), d.syn, d.other, d.filt, strings.Join(d.unsup, ","),
 		strings.Join(n.inc, ","), slow, trace, tree)
 }
 
